@@ -404,6 +404,20 @@ type duplexHandler struct {
 	readErr  error
 	writeErr error
 	progress [2]int32 // hook-free progress marks: how often each side ran while the other was between its steps
+	mu       sync.Mutex
+	panicked string
+	closeAt  int      // > 0: the writer goroutine closes the request body after this many frames (the reader may be inside Read)
+}
+
+// recoverInto: a panic on a goroutine the handler started would take the whole server process down (net/http only
+// recovers on its own goroutine); record it instead of dying with it.
+func (h *duplexHandler) recoverInto(side string) {
+	if p := recover(); p != nil {
+		buf := make([]byte, 4096)
+		h.mu.Lock()
+		h.panicked = fmt.Sprintf("%s goroutine panicked: %v\n%s", side, p, buf[:runtime.Stack(buf, false)])
+		h.mu.Unlock()
+	}
 }
 
 func (h *duplexHandler) ServeHTTP(w http.ResponseWriter, r *http.Request) {
@@ -416,6 +430,7 @@ func (h *duplexHandler) ServeHTTP(w http.ResponseWriter, r *http.Request) {
 	wg.Add(2)
 	go func() { // reader
 		defer wg.Done()
+		defer h.recoverInto("reader")
 		br := bufio.NewReaderSize(r.Body, 512)
 		buf := make([]byte, 64)
 		for {
@@ -434,6 +449,7 @@ func (h *duplexHandler) ServeHTTP(w http.ResponseWriter, r *http.Request) {
 	}()
 	go func() { // writer
 		defer wg.Done()
+		defer h.recoverInto("writer")
 		w.WriteHeader(200)
 		for i := 0; i < h.nWrite; i++ {
 			data, _ := encodeMsg(codec, h.k.resps[i%len(h.k.resps)])
@@ -442,6 +458,9 @@ func (h *duplexHandler) ServeHTTP(w http.ResponseWriter, r *http.Request) {
 				return
 			}
 			atomic.AddInt32(&h.wrote, 1)
+			if h.closeAt > 0 && i+1 == h.closeAt {
+				_ = r.Body.Close() // the response side gives up on the request
+			}
 			runtime.Gosched()
 		}
 	}()
@@ -514,11 +533,19 @@ func c14W2(c *Ctx, i int, r *rand.Rand, modeB bool) {
 		}
 	}
 	h := &duplexHandler{k: k, nWrite: k.rounds}
+	closing := fault == "none" && chance(r, 35)
+	if closing {
+		h.closeAt = 1 + r.IntN(k.rounds)
+		fault = "handler-closes-request-body"
+	}
 	rec := newRecorder()
 	if modeB {
 		rec.Lock = &sync.Mutex{} // effect-monitor mode: keep the byte stream inspectable
 	}
 	sb := &ScriptBody{Data: raw, EndErr: endErr}
+	if closing {
+		sb.Lock = &sync.Mutex{} // like a net/http body, the scripted one tolerates Close during Read
+	}
 	for range raw {
 		sb.Chunks = append(sb.Chunks, 1+r.IntN(7))
 		if len(sb.Chunks) > 400 {
@@ -553,6 +580,13 @@ func c14W2(c *Ctx, i int, r *rand.Rand, modeB bool) {
 	}
 	if panicked != nil {
 		c.Violate(i, "panic-in-duplex-stream", fmt.Sprintf("%v\n%s", panicked, detail()))
+		return
+	}
+	h.mu.Lock()
+	hp := h.panicked
+	h.mu.Unlock()
+	if hp != "" {
+		c.Violate(i, "panic-on-handler-goroutine/"+fault, fmt.Sprintf("%s\n%s", hp, detail()))
 		return
 	}
 	// delivered response messages must be a prefix of what the handler wrote, frames intact
